@@ -144,3 +144,24 @@ def _obj_eq(a, b, fa, fb):
     if r is NotImplemented:
         r = a is b
     return r
+
+
+def _lru_call(cache, fn, args, kwargs):
+    for k, kw, v in cache:
+        if len(k) == len(args) and kw == kwargs:
+            same = True
+            i = 0
+            for x in k:
+                y = args[i]
+                if not (x is y or (_is_plain(x) and _is_plain(y) and x == y)):
+                    same = False
+                i += 1
+            if same:
+                return v
+    v = fn(*args, **kwargs)
+    cache.append((args, kwargs, v))
+    return v
+
+
+def _is_plain(x):  # replaced by a native model: str-like / number / None / tuple of those
+    raise NotImplementedError
